@@ -9,6 +9,8 @@
 //   reset <attr> <old:0|1> <smart:0|1> <autofile:hex> <dir:hex>
 //   file <name:hex> <hex|absent>
 //   comment <ptt|bbs> <sysop|user> <userid:hex13> <reqname:hex28> <type:0..255> <text:hex> <ip:hex16> <mtime>
+//   begin <id> <comment arguments>   a commenter runs its lookup and is then kept waiting on the article's lock
+//   finish <id>                      ... is let go: it appends and updates the index from its (stale) copy
 //   mark <type>                      CommentType(type).Bytes() (validates the regenerated table)
 //   dump                             whole .DIR and every article file
 //
@@ -27,6 +29,7 @@ import (
 	"os"
 	"path/filepath"
 	"regexp"
+	"runtime"
 	"sort"
 	"strconv"
 	"strings"
@@ -264,7 +267,7 @@ func doReset(line string, w []string) {
 	smart, ok3 := parseBit(w[3])
 	auto, ok4 := parseHex(w[4])
 	dir, ok5 := parseHex(w[5])
-	if !(ok1 && ok2 && ok3 && ok4 && ok5) || uint32(attr)&^attrAllowed != 0 || len(dir) > 1<<20 {
+	if !(ok1 && ok2 && ok3 && ok4 && ok5) || uint32(attr)&^attrAllowed != 0 || len(dir) > 1<<20 || len(tickets) > 0 {
 		bad(line)
 		return
 	}
@@ -300,6 +303,7 @@ func doReset(line string, w []string) {
 	curAttr = uint32(attr)
 	ptttype.OLDRECOMMEND = old
 	ptttype.EDITPOST_SMARTMERGE = smart
+	smartWant = smart
 	cache.Shm.Shm.Total[bidWhoAmI.ToBidInStore()] = 0
 	if err := cache.SetBTotal(bidWhoAmI); err != nil {
 		fatal("SetBTotal: %v", err)
@@ -311,7 +315,7 @@ func doReset(line string, w []string) {
 }
 
 func doFile(line string, w []string) {
-	if len(w) != 3 || !haveReset {
+	if len(w) != 3 || !haveReset || len(tickets) > 0 {
 		bad(line)
 		return
 	}
@@ -420,76 +424,73 @@ func typeLabel(t uint64) string {
 	return "other"
 }
 
-func doComment(line string, w []string) {
-	if len(w) != 9 || !haveReset {
-		bad(line)
-		return
+// one comment request as the op line gives it
+type call struct {
+	via, lvl            string
+	user, req, text, ip []byte
+	ctype, mtok         uint64
+}
+
+// parseCall reads the eight argument tokens of `comment` / `begin`.
+func parseCall(w []string) (*call, bool) {
+	if len(w) != 8 {
+		return nil, false
 	}
-	via, lvl := w[1], w[2]
-	user, ok1 := parseHex(w[3])
-	req, ok2 := parseHex(w[4])
-	ctype, ok3 := parseNat(w[5], 255)
-	text, ok4 := parseHex(w[6])
-	ip, ok5 := parseHex(w[7])
-	mtok, ok6 := parseNat(w[8], 2147483647)
+	via, lvl := w[0], w[1]
+	user, ok1 := parseHex(w[2])
+	req, ok2 := parseHex(w[3])
+	ctype, ok3 := parseNat(w[4], 255)
+	text, ok4 := parseHex(w[5])
+	ip, ok5 := parseHex(w[6])
+	mtok, ok6 := parseNat(w[7], 2147483647)
 	if !(ok1 && ok2 && ok3 && ok4 && ok5 && ok6) || len(user) != ptttype.IDLEN+1 || len(req) != lenName ||
 		len(ip) != ptttype.IPV4LEN+1 || mtok == 0 || len(text) > 4096 ||
 		(via != "ptt" && via != "bbs") || (lvl != "sysop" && lvl != "user") || len(cstr(user)) == 0 {
-		bad(line)
-		return
+		return nil, false
 	}
 	if via == "bbs" && (lvl != "sysop" || !bytes.Equal(user, sysopID[:]) || !canonName(req)) {
-		bad(line)
-		return
+		return nil, false
 	}
+	return &call{via, lvl, user, req, text, ip, ctype, mtok}, true
+}
 
-	dir0 := readDir()
-	files0 := readFiles()
-	// the harness's own bookkeeping must agree with the disk before the call
-	if len(files0) != len(rawFiles) {
-		fatal("bookkeeping: %d files on disk, %d expected", len(files0), len(rawFiles))
-	}
+// outcome of the real call
+type outcome struct {
+	comment []byte
+	mtime   types.Time4
+	err     error
+}
 
+// invoke performs the REAL call.
+func (c *call) invoke() (o outcome) {
 	userRec := &ptttype.UserecRaw{Version: ptttype.PASSWD_VERSION, NumLoginDays: 100, Over18: true}
-	copy(userRec.UserID[:], user)
+	copy(userRec.UserID[:], c.user)
 	uid := ptttype.UID(2)
-	if lvl == "sysop" {
+	if c.lvl == "sysop" {
 		userRec.UserLevel = ptttype.PERM_DEFAULT | ptttype.PERM_LOGINOK | ptttype.PERM_POST | ptttype.PERM_SYSOP
 		uid = 1
 	} else {
 		userRec.UserLevel = ptttype.PERM_DEFAULT | ptttype.PERM_LOGINOK | ptttype.PERM_POST
 	}
 	fn := &ptttype.Filename_t{}
-	copy(fn[:], req)
+	copy(fn[:], c.req)
 	ipRaw := &ptttype.IPv4_t{}
-	copy(ipRaw[:], ip)
-
-	var comment []byte
-	var mtime types.Time4
-	var err error
-	t0 := time.Now().Unix()
-	wd := 3 * time.Second
-	if ptttype.EDITPOST_SMARTMERGE {
-		wd = 8 * time.Second // the retry loop of doAddRecommend sleeps 5 x 1 s before it gives up
+	copy(ipRaw[:], c.ip)
+	if c.via == "bbs" {
+		aid := bbs.ToArticleID(fn)
+		o.comment, o.mtime, o.err = bbs.CreateComment(bbs.UUserID(cstr(c.user)), bbs.BBoardID("10_"+brdWhoAmI), aid,
+			ptttype.CommentType(c.ctype), c.text, string(c.ip))
+	} else {
+		bid := boardID
+		o.comment, o.mtime, o.err = ptt.Recommend(userRec, uid, &bid, bidWhoAmI, fn, ptttype.CommentType(c.ctype), c.text, ipRaw, nil)
 	}
-	res := hx.CallT(wd, func() string {
-		if via == "bbs" {
-			aid := bbs.ToArticleID(fn)
-			comment, mtime, err = bbs.CreateComment(bbs.UUserID(cstr(user)), bbs.BBoardID("10_"+brdWhoAmI), aid,
-				ptttype.CommentType(ctype), text, string(ip))
-		} else {
-			comment, mtime, err = ptt.Recommend(userRec, uid, &boardID, bidWhoAmI, fn, ptttype.CommentType(ctype), text, ipRaw, nil)
-		}
-		return "returned"
-	})
-	t1 := time.Now().Unix()
+	return o
+}
 
-	dir1 := readDir()
-	files1 := readFiles()
-
-	// ---- the property's own classification of the request (independent of the model) ----
+// classify: the property's own classification of a request against the index it is decided on
+// (independent of the model).
+func classify(dir0 []byte, req, text []byte) (classes []string) {
 	k := specLookup(dir0, req)
-	var classes []string
 	if curAttr&uint32(ptttype.BRD_NORECOMMEND) != 0 {
 		classes = append(classes, "norecommend")
 	}
@@ -513,6 +514,49 @@ func doComment(line string, w []string) {
 	if bytes.ContainsAny(text, "\n\r") {
 		classes = append(classes, "newline-text")
 	}
+	return classes
+}
+
+func doComment(line string, w []string) {
+	if len(w) != 9 || !haveReset {
+		bad(line)
+		return
+	}
+	c, ok := parseCall(w[1:])
+	if !ok {
+		bad(line)
+		return
+	}
+	dir0 := readDir()
+	files0 := readFiles()
+	// the harness's own bookkeeping must agree with the disk before the call
+	if len(files0) != len(rawFiles) {
+		fatal("bookkeeping: %d files on disk, %d expected", len(files0), len(rawFiles))
+	}
+	classes := classify(dir0, c.req, c.text)
+	var o outcome
+	t0 := time.Now().Unix()
+	wd := 3 * time.Second
+	if ptttype.EDITPOST_SMARTMERGE {
+		wd = 8 * time.Second // the retry loop of doAddRecommend sleeps 5 x 1 s before it gives up
+	}
+	res := hx.CallT(wd, func() string {
+		o = c.invoke()
+		return "returned"
+	})
+	t1 := time.Now().Unix()
+	judge(line, c, false, classes, dir0, files0, res, o, t0, t1)
+}
+
+// judge observes the state after a call, judges it against the property (P-hat) and records the op.
+// stale: the call decided its delta from a copy of the entry read before other comments went through
+// (begin/finish): then the exact saturated sum is not required, only range and a move of at most one.
+func judge(line string, c *call, stale bool, classes []string, dir0 []byte, files0 map[string][]byte, res string, o outcome, t0, t1 int64) {
+	via, req, text, ip, user, ctype, mtok := c.via, c.req, c.text, c.ip, c.user, c.ctype, c.mtok
+	comment, mtime, err := o.comment, o.mtime, o.err
+	dir1 := readDir()
+	files1 := readFiles()
+	k := specLookup(dir0, req)
 
 	changedRecs := []int{}
 	if len(dir0) == len(dir1) {
@@ -541,6 +585,9 @@ func doComment(line string, w []string) {
 	stateSame := bytes.Equal(dir0, dir1) && len(changedFiles) == 0
 
 	label := fmt.Sprintf("%s:%s", via, typeLabel(ctype))
+	if stale {
+		label = "stale-" + label
+	}
 	var out string
 	var fails [][2]string
 	failf := func(key, f string, a ...interface{}) { fails = append(fails, [2]string{key, fmt.Sprintf(f, a...)}) }
@@ -627,7 +674,13 @@ func doComment(line string, w []string) {
 				if newS < -100 || newS > 100 {
 					failf("score:range", "score %d -> %d leaves [-100,100]", oldS, newS)
 				}
-				if newS != clampScore(oldS+delta) {
+				if stale {
+					// the delta was decided from a copy read before other comments went through: the on-disk
+					// score may move by the type's delta or not at all, never further, never past the bounds
+					if d := newS - oldS; d != 0 && d != delta {
+						failf("score:step", "type %d (delta decided from a stale copy) moved the on-disk score %d to %d", ctype, oldS, newS)
+					}
+				} else if newS != clampScore(oldS+delta) {
 					failf("score:step", "type %d on score %d gives %d, expected %d", ctype, oldS, newS, clampScore(oldS+delta))
 				}
 				switch {
@@ -700,6 +753,149 @@ func doComment(line string, w []string) {
 	}
 }
 
+// ---- interleaved commenters (begin / finish) ---------------------------------------------------
+//
+// `begin` starts a REAL ptt.Recommend in a goroutine while the harness holds the article's lock
+// (cmsys.GoFlockExNb, the lock doAddRecommendSmartMerge takes): the commenter runs its lookup (phase A),
+// finds the article locked and sleeps DO_ADD_RECOMMEND_LOCK_WAIT in the retry loop of doAddRecommend.  The
+// harness waits until that goroutine is seen sleeping there (runtime.Stack), so the order is not a matter
+// of timing.  While a ticket is pending the other comments of the history go through the branch without
+// the article lock (EDITPOST_SMARTMERGE off: same bytes, no lock), so they complete although the lock is
+// held.  `finish` releases the lock; the commenter's next retry succeeds and it performs phase B with the
+// copy of the entry it read at `begin`.
+
+type ticket struct {
+	c        *call
+	classes  []string
+	lockFile *os.File
+	lockPath string
+	target   string
+	done     chan outcome
+}
+
+var (
+	tickets   = map[string]*ticket{}
+	smartWant bool // the EDITPOST_SMARTMERGE value of the reset
+	lastBegin time.Time
+)
+
+var reTicket = regexp.MustCompile(`^[a-z0-9]{1,8}$`)
+
+// sleepingCommenters counts goroutines that sleep inside the retry loop of ptt.doAddRecommend.
+func sleepingCommenters() int {
+	buf := make([]byte, 1<<20)
+	n := runtime.Stack(buf, true)
+	cnt := 0
+	for _, g := range strings.Split(string(buf[:n]), "\n\n") {
+		if strings.Contains(g, "ptt.doAddRecommend(") && strings.Contains(g, "time.Sleep(") {
+			cnt++
+		}
+	}
+	return cnt
+}
+
+func doBegin(line string, w []string) {
+	if len(w) != 10 || !haveReset {
+		bad(line)
+		return
+	}
+	id := w[1]
+	c, ok := parseCall(w[2:])
+	if !ok || c.via != "ptt" || !reTicket.MatchString(id) || tickets[id] != nil || len(tickets) >= 8 {
+		bad(line)
+		return
+	}
+	dir0 := readDir()
+	k := specLookup(dir0, c.req)
+	t := &ticket{c: c, classes: classify(dir0, c.req, c.text), done: make(chan outcome, 1)}
+	if k >= 0 {
+		t.target = string(cstr(dir0[k*recSz : k*recSz+lenName]))
+		for _, o := range tickets {
+			if o.target == t.target {
+				bad(line)
+				return
+			}
+		}
+		// hold the article's lock, exactly the key and the kind of lock the commenter will ask for
+		if _, exists := rawFiles[t.target]; exists {
+			t.lockPath = filepath.Join(boardDir, t.target)
+			f, err := os.OpenFile(t.lockPath, os.O_APPEND|os.O_WRONLY, 0o644)
+			if err != nil {
+				fatal("begin: open %s: %v", t.lockPath, err)
+			}
+			if err := cmsys.GoFlockExNb(f.Fd(), t.lockPath); err != nil {
+				fatal("begin: lock %s: %v", t.lockPath, err)
+			}
+			t.lockFile = f
+		}
+	}
+	ptttype.EDITPOST_SMARTMERGE = true // the waiting commenter must take the branch that locks
+	// the waiting commenters retry once per second: stagger them, so that finishing them one after the other
+	// does not cost a full second each
+	if d := time.Until(lastBegin.Add(120 * time.Millisecond)); d > 0 {
+		time.Sleep(d)
+	}
+	lastBegin = time.Now()
+	before := sleepingCommenters()
+	go func() {
+		defer func() {
+			if e := recover(); e != nil {
+				hx.LastPanic = fmt.Sprint(e)
+				t.done <- outcome{err: errPanic}
+			}
+		}()
+		t.done <- c.invoke()
+	}()
+	// wait until the commenter has finished phase A: either it returned (refused, not found ...) or it is
+	// asleep in the retry loop
+	deadline := time.Now().Add(10 * time.Second)
+	for {
+		if len(t.done) > 0 || sleepingCommenters() > before {
+			break
+		}
+		if time.Now().After(deadline) {
+			fatal("begin: the commenter neither returned nor reached the lock wait")
+		}
+		time.Sleep(2 * time.Millisecond)
+	}
+	tickets[id] = t
+	ptttype.EDITPOST_SMARTMERGE = false // comments in between do not need the lock the harness holds
+	run.Op(line, "started", "begin", true)
+}
+
+var errPanic = errors.New("panic")
+
+func doFinish(line string, w []string) {
+	if len(w) != 2 || !haveReset || tickets[w[1]] == nil {
+		bad(line)
+		return
+	}
+	t := tickets[w[1]]
+	delete(tickets, w[1])
+	dir0 := readDir()
+	files0 := readFiles()
+	t0 := time.Now().Unix()
+	if t.lockFile != nil {
+		_ = cmsys.GoFunlock(t.lockFile.Fd(), t.lockPath)
+		t.lockFile.Close()
+	}
+	var o outcome
+	res := "returned"
+	select {
+	case o = <-t.done:
+		if o.err == errPanic {
+			res = "PANIC"
+		}
+	case <-time.After(8 * time.Second):
+		res = "TIMEOUT"
+	}
+	t1 := time.Now().Unix()
+	if len(tickets) == 0 {
+		ptttype.EDITPOST_SMARTMERGE = smartWant
+	}
+	judge(line, t.c, true, t.classes, dir0, files0, res, o, t0, t1)
+}
+
 // judgeShape: the appended bytes are one comment line for (type, commenter, text).
 func judgeShape(failf func(string, string, ...interface{}), line []byte, ctype uint64, uid, text, ip []byte) {
 	n := len(line)
@@ -761,6 +957,10 @@ func execLine(line string) {
 		doFile(line, w)
 	case "comment":
 		doComment(line, w)
+	case "begin":
+		doBegin(line, w)
+	case "finish":
+		doFinish(line, w)
 	case "mark":
 		doMark(line, w)
 	case "dump":
@@ -798,7 +998,8 @@ func main() {
 	run.Rule = "op lines from generators seeded by VERIF_SEED: table check of all 256 type marks; one history per comment type over a .DIR with " +
 		"one article at EVERY score in [-100,100] plus six outside; refusal matrix (no-comment board, marked/solved combinations, L entries " +
 		"requested under their L, M and G names, texts with line breaks); text lengths 0..80 x every layout (old/new, IP log, aligned id); random histories of 1-30 comments on 2-6 articles; " +
-		"error paths; bbs.CreateComment; malformed stream. Non-trivial = a comment call that reached the real Recommend."
+		"error paths; bbs.CreateComment; interleaved commenters (a real Recommend held between its lookup and its index update while others " +
+		"move the score to and across the bounds); malformed stream. Non-trivial = a comment call that reached the real Recommend."
 	if run.Replay != "" {
 		for _, l := range hx.ReplayOps(run.Replay) {
 			execLine(l)
